@@ -1,1 +1,83 @@
-def main : IO Unit := pure ()
+import NfcVerif.Model.Retry
+open NfcVerif NfcVerif.Retry
+
+def parseAtt (c : Char) : Option Att :=
+  match c with
+  | 'a' => some .ans
+  | 't' => some (.flt .timeout false) | 'T' => some (.flt .timeout true)
+  | 'x' => some (.flt .transmission false) | 'X' => some (.flt .transmission true)
+  | 'p' => some (.flt .protocol false) | 'P' => some (.flt .protocol true)
+  | 'o' => some (.flt .brokenLink false) | 'O' => some (.flt .brokenLink true)
+  | 'c' => some (.flt .base false) | 'C' => some (.flt .base true)
+  | '0' => some (.short 0) | '1' => some (.short 1) | '2' => some (.short 2) | '3' => some (.short 3)
+  | _ => none
+
+def parseScript (s : String) : Option (List Att) :=
+  if s = "-" then some [] else s.toList.mapM parseAtt
+
+def attLetter : Att × Bool → String
+  | (.ans, m) => if m then "m" else "a"
+  | (.flt f r, _) =>
+    let l := match f with | .timeout => "t" | .transmission => "x" | .protocol => "p" | .brokenLink => "o" | .base => "c"
+    if r then l.toUpper else l
+  | (.short k, _) => toString k
+
+def isWriteTok (t : String) : Bool := t.startsWith "w" || t.startsWith "W" || t.startsWith "up"
+
+def parseStep (s : String) : Option Step :=
+  match s.splitOn ":" with
+  | [tok, a] =>
+    let cmd : Cmd := ⟨tok, isWriteTok tok⟩
+    if a = "+" then some ⟨cmd, .ok⟩
+    else if a = "~" then some ⟨cmd, .mute⟩
+    else if a.startsWith "-" then (a.drop 1).toString.toNat?.map fun n => ⟨cmd, .refuse n⟩
+    else none
+  | _ => none
+
+def parsePhases (s : String) : Option Phases :=
+  if s = "-" then some [] else
+  (s.splitOn ";").mapM fun p => if p = "" then some [] else (p.splitOn ",").mapM parseStep
+
+def parseVal : String → Option Val
+  | "none" => some .none | "false" => some .false_ | "true" => some .true_
+  | "ndef" => some .ndef | "unit" => some .unit | "list" => some .list | _ => none
+
+def showVal : Val → String
+  | .none => "none" | .false_ => "false" | .true_ => "true" | .ndef => "ndef" | .unit => "unit" | .list => "list"
+
+def showOutcome : Outcome → String
+  | .ok v => "ok " ++ showVal v
+  | .exc e => "exc " ++ e.name
+
+def showLog (l : List Inv) : String :=
+  " ".intercalate (l.map fun i => "|" ++ String.join (i.atts.map fun a => " " ++ i.cmd.tok ++ "." ++ attLetter a))
+
+def showApplied (l : List Cmd) : String :=
+  let w := (l.filter (·.write)).map (·.tok)
+  if w.isEmpty then "-" else ",".intercalate w
+
+def parseCfg (s : String) : Option Cfg :=
+  match s.toList with
+  | [a, b, c, d] => some ⟨a = '1', b = '1', c = '1', d = '1'⟩
+  | _ => none
+
+def finish (r : Outcome × World) : String :=
+  showOutcome r.1 ++ " # " ++ showLog r.2.log ++ " # " ++ showApplied r.2.applied
+
+def handle (line : String) : String :=
+  match line.splitOn " " with
+  | ["run", cfg, fam, op, v, nret, script, phases] =>
+    match parseCfg cfg, parseVal v, nret.toNat?, parseScript script, parsePhases phases with
+    | some cfg, some v, some nret, some sc, some phs =>
+      match prog cfg fam op phs v nret with
+      | some p => finish (run cfg p 0 ⟨sc, [], []⟩)
+      | none => "no-program"
+    | _, _, _, _, _ => "bad-op"
+  | ["t3format", cfg, nmaxb, nbr, nbw, wipe, script] =>
+    match parseCfg cfg, nmaxb.toNat?, nbr.toNat?, nbw.toNat?, parseScript script with
+    | some cfg, some a, some b, some c, some sc =>
+      finish (run cfg (t3Format cfg ⟨a, b, c⟩ (wipe = "1")) 0 ⟨sc, [], []⟩)
+    | _, _, _, _, _ => "bad-op"
+  | _ => "bad-op"
+
+def main : IO Unit := runDriver handle
